@@ -2927,11 +2927,20 @@ def gen_c17(read, num):
 
 
 def run(read, emit, num):
-    body = "namespace Edp.Gen\n\n"
-    broken = []
-    for part in (gen_c16, gen_c09, gen_c04, gen_c15, gen_c13, gen_c18, gen_c19, gen_state, gen_c20, gen_c05, gen_c08, gen_c10, gen_c11, gen_c07, gen_c14, gen_c16b, gen_c02, gen_c01, gen_c17):
+    """One generated module per part (`Generated/Misc<Part>.lean`), so that a change of the source rebuilds only the models
+    and theorems that read that part; `Generated/Misc.lean` imports them all (for convenience; nothing in the library
+    imports it). A part may use the definitions of an earlier part: it then imports that part's module."""
+    parts = (gen_c16, gen_c09, gen_c04, gen_c15, gen_c13, gen_c18, gen_c19, gen_state, gen_c20, gen_c05, gen_c08, gen_c10, gen_c11, gen_c07, gen_c14, gen_c16b, gen_c02, gen_c01, gen_c17)
+    defined = {}   # generated name -> module that defines it
+    mods = []
+    for part in parts:
         ls, br = part(read, num)
-        body += "\n".join(ls) + "\n"
-        broken += br
-    body += "end Edp.Gen\n"
-    emit("Misc", body, broken)
+        text = "\n".join(ls) + "\n"
+        mod = "Misc" + part.__name__[len("gen_"):].capitalize()
+        uses = sorted({defined[n] for n in set(re.findall(r"[A-Za-z_][A-Za-z0-9_']*", text)) if n in defined})
+        for n in re.findall(r"(?m)^(?:def|abbrev|structure|inductive)\s+([A-Za-z_][A-Za-z0-9_']*)", text):
+            defined.setdefault(n, mod)
+        body = "".join(f"import EdpVerif.Generated.{u}\n" for u in uses) + "namespace Edp.Gen\n\n" + text + "end Edp.Gen\n"
+        emit(mod, body, br)
+        mods.append(mod)
+    emit("Misc", "".join(f"import EdpVerif.Generated.{m}\n" for m in mods), [])
